@@ -329,7 +329,7 @@ func (p *CPU) execInst(bus *device.Bus, as abi.As, arg *abi.AsRawArgument) error
 
 	case riscv.AREM:
 		if p.RegX[arg.Rs2] != 0 {
-			p.RegX[arg.Rd] = RVUInt(int32(p.RegX[arg.Rs1]) % int32(p.RegX[arg.Rs2]))
+			p.RegX[arg.Rd] = RVUInt(RVInt(p.RegX[arg.Rs1]) % RVInt(p.RegX[arg.Rs2]))
 		} else {
 			p.RegX[arg.Rd] = p.RegX[arg.Rs1]
 		}
